@@ -3,22 +3,61 @@ import gen
 import ref
 import trace
 from props.base import PropBase
-from props.C02 import tx_cfg, coop_rounds
+from props.C02 import tx_cfg, coop_rounds, fc_frame
 
 
 class C17(PropBase):
     id = 'C17'
     partial_passes = 0.25
+    rx_only_passes = 0.4
     lean_modules = ['Isotp.Props.C17']
     theorems = []
     rule = ('send((generator, size)) with (declared, actual) pairs around every frame boundary: equal, shorter by 1..k, longer, empty, huge declared '
             'size; link sizes x prefix x BS/STmin of the peer; the pull counter of an instrumented generator is compared after every event with '
-            'the bytes emitted; distinct = (tx_dl, prefix, declared, actual, bs)')
+            'the bytes emitted; the same through an enabled rate limiter whose credit runs out between the payload and the full length of a frame; distinct = (tx_dl, prefix, declared, actual, bs)')
     assumptions = ['generator yields bytes']
     quick_per_shard = 120
     thorough_per_shard = 3000
 
+    def limited_family(self, rng):
+        """generator payload sent through an enabled rate limiter whose remaining credit is, at some point, at least a Consecutive Frame's
+        payload but less than the whole frame (payload + PCI + address byte): nothing may be pulled for a frame that does not go out"""
+        a, _ = gen.rand_addr_pair(rng, mode=rng.choice([0, 1, 3, 5, 6, 2]), asym_prob=0.1)
+        params = {}
+        if rng.random() < 0.4:
+            params['tx_data_length'] = rng.choice(gen.TXDLS)
+        txdl = params.get('tx_data_length', 8)
+        pre = gen.prefix_len(a, 'tx')
+        c = txdl - 1 - pre
+        ff = txdl - 2 - pre
+        w = 0.5
+        k = rng.choice([1, 2, 5, 5, 9])
+        B = k * txdl + rng.choice([c, c + pre, c - 1, rng.randrange(0, txdl)])
+        B = max(B, txdl)
+        params.update({'rate_limit_enable': True, 'rate_limit_window_size': w, 'rate_limit_max_bitrate': 16 * B})
+        ops = [{'op': 'layer', 'i': 0, 'addr': a, 'params': params}]
+        wns = int(w * 1e9)
+        for rid in range(1, rng.choice([2, 3])):
+            declared = ff + rng.choice([2, 4, 7, 12]) * c + rng.choice([0, 1, c - 1, -1])
+            actual = max(0, declared + rng.choice([0, 0, 0, 5, -1, -c - 1]))
+            ops.append({'op': 'send', 'i': 0, 'id': rid, 'gen': (declared, gen.rand_payload(rng, actual))})
+            ops.append({'op': 'process', 'i': 0})
+            fid, ext, data = fc_frame(a, 0, 0)
+            nframes = declared // c + 3
+            for _ in range((nframes * txdl // B + 3) * 3):
+                ops.append({'op': 'frame', 'i': 0, 'id': fid, 'ext': ext, 'data': data})
+                ops.append({'op': 'process', 'i': 0})
+                if rng.random() < 0.3:
+                    ops.append({'op': 'process', 'i': 0})
+                ops.append({'op': 'tick', 'dt': rng.choice([wns // 2 + 1, wns + 1, wns // 3, 2 * wns])})
+            for _ in range(3):
+                ops.append({'op': 'tick', 'dt': wns + 6000000})
+                ops.append({'op': 'process', 'i': 0})
+        return {'ops': ops}
+
     def scenario(self, rng, tier):
+        if rng.random() < 0.2:
+            return self.limited_family(rng)
         a, _ = gen.rand_addr_pair(rng, mode=rng.choice([0, 1, 3, 5, 6, 2]), asym_prob=0.1)
         params = {}
         if rng.random() < 0.6:
